@@ -13,6 +13,7 @@ CLAUSE_PROPERTY = {
     "C01_Exact": "C01", "C01_OnlyAdded": "C01",
     "C03_Notes": "C03", "C03_Blame": "C03",
     "C05_WellFormed": "C05", "C02_Carried": "C02", "C14_Stutter": "C14",
+    "C10_Converged": "C10", "C10_NoForeign": "C10", "C10_NeverRemoved": "C10",
     "C08_NoTranscript": "C08", "C08_Masked": "C08", "C09_Overlay": "C09", "C09_Formats": "C09", "C19_Stats": "C19",
     "Twin_Obs": "C15", "Twin_Exact": "C15", "Twin_Blame": "C15",
 }
@@ -85,7 +86,8 @@ def run_core(pid, tier, seed, plan):
         cwd = os.path.join(wd, camp["name"])
         gres, beh = tlc.gen_behaviours(consts, os.path.join(cwd, "gen"), camp.get("invariants", []),
                                        workers=camp.get("workers", 8), timeout=camp.get("timeout", 900),
-                                       simulate=camp.get("simulate"), coverage=camp.get("coverage", False))
+                                       simulate=camp.get("simulate"), coverage=camp.get("coverage", False),
+                                       module=plan.get("module", "MC_Core.tla"), const_keys=plan.get("const_keys"))
         if gres["violated"]:
             print("TOOL-ERROR: the model itself violates %s in campaign %s (see %s)" % (
                 gres["violated"], camp["name"], gres["log"]))
@@ -97,9 +99,10 @@ def run_core(pid, tier, seed, plan):
             total["states"] += gres["distinct"]
             total["transitions"] += gres["generated"]
         total["behaviours_generated"] += len(beh)
-        sel, ntags = engine.select(beh, camp["budget"], seed, per_tag=camp.get("per_tag", 2))
+        sel, ntags = engine.select(beh, camp["budget"], seed, per_tag=camp.get("per_tag", 2),
+                                   tagger=plan.get("tagger"))
         total["tag_vectors"] += ntags
-        total["tag_vectors_replayed"] += len({engine.tags_of(b) for b in sel})
+        total["tag_vectors_replayed"] += len({(plan.get("tagger") or engine.tags_of)(b) for b in sel})
         variants = camp.get("variants", [("plain", "plain")])
         jobs = []
         for i, b in enumerate(sel):
@@ -123,7 +126,7 @@ def run_core(pid, tier, seed, plan):
                         cfg["twin"] = tw
                     jobs.append((cfg, b, "%s-%s-%d-%s-%s%s" % (pid, camp["name"], i, render, filefam,
                                                               "-t%d" % twins.index(tw) if tw is not None else "")))
-        results = engine.replay_many(gitai, jobs)
+        results = engine.replay_many(gitai, jobs, executor=plan.get("executor"))
         errs = [(i, e) for i, (_, _, e) in enumerate(results) if e]
         total["harness_errors"] += len(errs)
         if len(errs) > max(2, len(jobs) // 50):
@@ -131,7 +134,8 @@ def run_core(pid, tier, seed, plan):
             return 2
         total["replayed"] += len(jobs) - len(errs)
         total["divergent"] = total.get("divergent", 0) + sum(1 for _, info, e in results if not e and info.get("divergent"))
-        runs, tres = engine.validate(consts, results, os.path.join(cwd, "val"))
+        runs, tres = engine.validate(consts, results, os.path.join(cwd, "val"), module=plan.get("module", "MC_Core.tla"),
+                                     const_keys=plan.get("const_keys"), end_event=plan.get("end_event"))
         if any(not r["accepted"] for r in tres):
             bad = [r for r in tres if not r["accepted"]][0]
             print("TOOL-ERROR: TLC did not accept a recorded trace (spec/harness mismatch): %s (see %s)" % (
@@ -166,8 +170,7 @@ def run_core(pid, tier, seed, plan):
                                                                                  "wall_s", "timeout")},
                              "mode": "simulate" if camp.get("simulate") else "exhaustive",
                              "behaviours": len(beh), "replayed": len(jobs), "tag_vectors": ntags,
-                             "consts": {k: consts[k] for k in ("File", "Session", "MaxUid", "MaxLines", "MaxCommit",
-                                                               "MaxSteps", "Alphabet", "Dev")}})
+                             "consts": {k: consts[k] for k in consts if k not in ("Mode",)}})
     # ---------------------------------------------------------------- report
     for kid, rs in sorted(known_hits.items()):
         k = [x for x in known if x["id"] == kid][0]
